@@ -69,7 +69,6 @@ impl EditState {
         }
         let op = undo_operations::ClearLayer::new(layer);
         self.push_undo_action(Box::new(op))?;
-        self.current_layer = layer + 1;
         Ok(())
     }
 
